@@ -65,6 +65,7 @@ fn base_case(msgs: Vec<(Value, u64)>, max_msg_len: usize, stream_len: usize) -> 
         rfault: None,
         monitored: false,
         buf_cap: None,
+        snd_cap: None,
         stream: None,
         recv_retries: 0,
         send_after_error: false,
@@ -110,6 +111,11 @@ fn build(ctx: &Ctx, vt: &VT, idx: u64, rng: &mut Rng) -> Built {
         let l = largest.max(1);
         c.buf_cap = Some(*rng.pick(&[l, l + 1, l + a, l + l / 2, 2 * l - 1, 2 * l, 3 * l]));
     }
+    if rng.chance(1, 3) {
+        // the sender's buffer built by hand: any capacity that can hold the largest message
+        let l = largest.max(1);
+        c.snd_cap = Some(*rng.pick(&[l, l, l + 1, l + a, 2 * l - 1, 3 * l]));
+    }
     // async parameters
     c.capacity = *rng.pick(&[1usize, 2, 3, a, 17, 64, 1000]);
     let sched_len = rng.range(0, 200);
@@ -152,6 +158,7 @@ fn case_desc(c: &IoCase) -> J {
         .set("messages", J::Arr(c.msgs.iter().take(6).map(|(v, _)| J::s(v.short())).collect()))
         .set("n_messages", J::i(c.msgs.len()))
         .set("max_msg_len", J::i(c.max_msg_len))
+        .set("snd_cap", J::s(format!("{:?}", c.snd_cap)))
         .set("write_chunks", J::s(format!("{:?}", c.wchunks)))
         .set("read_chunks", J::s(format!("{:?}", c.rchunks)))
         .set("write_fault", J::s(format!("{:?}", c.wfault)))
